@@ -255,7 +255,7 @@ fn exec_runes_mode(w: &mut runes::Worker, cfgs: &[IndexCfg], layout: &runes::Lay
 pub fn run(ctx: &Ctx) -> Report {
   let property = "C15";
   let mut report = Report::new(property, &ctx.tier, "model_checking");
-  let budget_total: u64 = if ctx.thorough() { 1200 } else { 55 };
+  let budget_total: u64 = if ctx.thorough() { 1200 } else { 75 };
 
   if let Some(path) = &ctx.replay {
     let v: Value = serde_json::from_str(&std::fs::read_to_string(path).expect("read replay")).expect("json");
